@@ -110,6 +110,18 @@ func ErrorToEDE(err error) (uint16, string) {
 		return ve.EDECode(), ve.Error()
 	}
 
+	// The signature primitives report the DNS library's sentinel errors.
+	// A signature that does not verify makes the answer bogus whichever
+	// layer words it; without a DNSSEC code here, consumers that tell
+	// validation failures from other SERVFAILs by their EDE (DNS64 must not
+	// synthesise over the former) took "bad signature" for the latter.
+	switch {
+	case errors.Is(err, dns.ErrSig), errors.Is(err, dns.ErrKey), errors.Is(err, dns.ErrRRset), errors.Is(err, dns.ErrNoSig):
+		return dns.ExtendedErrorCodeDNSBogus, err.Error()
+	case errors.Is(err, dns.ErrAlg), errors.Is(err, dns.ErrKeyAlg):
+		return dns.ExtendedErrorCodeUnsupportedDNSKEYAlgorithm, err.Error()
+	}
+
 	// Handle common Go errors
 	if errors.Is(err, context.DeadlineExceeded) {
 		return dns.ExtendedErrorCodeNoReachableAuthority, "Query timeout exceeded"
